@@ -28,6 +28,7 @@ def main():
     prop, k = sys.argv[1], sys.argv[2]
     outdir = sys.argv[sys.argv.index("--outdir") + 1] if "--outdir" in sys.argv else "/tmp/wt/out"
     wt = sys.argv[sys.argv.index("--wt") + 1] if "--wt" in sys.argv else "/tmp/wt/confirm"
+    koff = int(sys.argv[sys.argv.index("--koff") + 1]) if "--koff" in sys.argv else 0
     src = os.path.join(outdir, prop)
     patch = os.path.join(src, "seed%s.patch.diff" % k)
     demo = os.path.join(src, "seed%s_demo_test.go" % k)
@@ -43,7 +44,7 @@ def main():
     shutil.copy("/verif/seeded/_harness/fakekernel_test.go", "/dev/null")
     demo_dst = os.path.join(wt, d, "zz_seed_test.go")
     shutil.copy(demo, demo_dst)
-    meta = {"property": prop, "seed": int(k), "demo_dir": d, "ran": []}
+    meta = {"property": prop, "seed": int(k) + koff, "round": 2 if koff else 1, "demo_dir": d, "ran": []}
     rc1, out1 = sh(["go", "test", "-vet=off", "-count=1", "-timeout", "300s", "-run", "Seed", "./" + d + "/"], wt)
     meta["ran"].append({"cmd": "clean tree: go test -vet=off -count=1 -run Seed ./%s/" % d, "exit": rc1})
     rc, out = sh(["git", "apply", "--whitespace=nowarn", patch], wt)
@@ -63,7 +64,7 @@ def main():
         meta["agent_description"] = open(md).read()[:3000]
     sh(["git", "checkout", "--", "."], wt)
     sh(["git", "clean", "-fdq"], wt)
-    dst = "/verif/seeded/%s-%s" % (prop, k)
+    dst = "/verif/seeded/%s-%d" % (prop, int(k) + koff)
     if ok:
         os.makedirs(dst, exist_ok=True)
         shutil.copy(patch, os.path.join(dst, "patch.diff"))
